@@ -5,12 +5,33 @@ from vlib import common
 
 
 def key_fn(case, obs, verdict):
+    """finding family: format + the layout facts that matter + what goes wrong"""
     f = case.split(" ")
-    why = verdict.split(" ")[0]
-    # finding family: format + layout facts that matter + what fails
+    why = verdict.split(" ")[0].replace("BAD:", "")
     fin = "final-newline" if len(f) > 2 and f[2] == "1" else "no-final-newline"
     status = obs.split(" ")[-1] if obs else "?"
-    return "%s:%s:%s:%s" % (f[0], fin, why.replace("BAD:", "")[:24], status)
+    if why != "expected":
+        return "%s:%s:%s" % (f[0], fin, why[:32])
+    want = verdict.split(" ")[1:]
+    got = obs.split(" ")
+    nd_want = sum(1 for x in want if x.startswith("D:"))
+    nd_got = sum(1 for x in got if x.startswith("D:"))
+    first = next((i for i, (a, b) in enumerate(zip(want, got)) if a != b), min(len(want), len(got)))
+    last_tok = f[-1].split(":") if len(f) > 4 else []
+    if f[0] in ("uripost", "raw") and fin == "no-final-newline" and last_tok[:1] == ["R"] and last_tok[-1] == "-":
+        return "%s:last-entry-empty-body-unterminated:entry-dropped:%s" % (f[0], status)
+    kind = "count" if nd_want != nd_got else "content"
+    nreq = sum(1 for t in f[4:] if t[:2] in ("R:", "E:"))
+    where = "first-pass" if first < nreq else "later-pass"
+    return "%s:%s:wrong-%s-in-%s:%s" % (f[0], fin, kind, where, status)
+
+
+def what_fn(case, obs, verdict):
+    want = verdict.split(" ")[1:]
+    got = obs.split(" ")
+    first = next((i for i, (a, b) in enumerate(zip(want, got)) if a != b), min(len(want), len(got)))
+    return "delivery #%d differs from what the file says: expected %s, provider delivered %s" % (
+        first + 1, (want[first] if first < len(want) else "<nothing>")[:160], (got[first] if first < len(got) else "<nothing>")[:160])
 
 
 def run(ctx):
@@ -19,7 +40,7 @@ def run(ctx):
         ctx, harness="hC07", extracted="C07_model", driver_dir="C07",
         rule=("non-trivial: files with >= 2 requests (so order, wrap-around and per-pass header state are exercised); "
               "distinct = distinct case lines"),
-        key_fn=key_fn,
+        key_fn=key_fn, what_fn=what_fn,
         trusted=[
             "extraction: ExtrOcamlBasic only; OCaml driver ocaml/C07/{a07lib,main}.ml + ocaml/common/conv.ml",
             "correspondence harness harness/cmd/hC07 + harness/internal/a07ammo (real components/providers/http NewProvider over an afero mem file, Provider.Run + Acquire)",
